@@ -91,9 +91,13 @@ Section Unfold.
   Definition struct_member (sd : sdef) (s : Z) (m : list Z * json) : res :=
     match find_field sd (fst m) with
     | None => if o_disallow_unknown o then Err E_UNKNOWN else Ok []
-    | Some f => if is_null (snd m) then Ok []
-                else rbind (j2t_val P D o (f_ty f) (s + 1) (snd m))
-                           (fun vb => Ok (tcode (f_ty f) :: enc_int 2 (f_id f) ++ vb))
+    | Some f =>
+      if o_vm o && f_vm f then
+        (if is_null (snd m) then (if p_vm_quirks P then Err E_KIND else Ok [])
+         else rbind (vm_val P (f_ty f) (snd m)) (fun vb => Ok (tcode (f_ty f) :: enc_int 2 (f_id f) ++ vb)))
+      else if is_null (snd m) then Ok []
+      else rbind (j2t_val P D o (f_ty f) (s + 1) (snd m))
+                 (fun vb => Ok (tcode (f_ty f) :: enc_int 2 (f_id f) ++ vb))
     end.
 
   Lemma j2t_val_struct_eq : forall i sd s ms, nth_error D i = Some sd ->
@@ -189,6 +193,21 @@ Section Denoted.
     - reflexivity.
   Qed.
 
+  (* api.js_conv under the strict policy agrees with the plain conversion on the canonical JSON of a conforming scalar *)
+  Lemma vm_val_denoted : forall t x, vm_ty_ok t = true -> conf dlex D t x = true ->
+    vm_val strict t (json_of dlex D o t x) = Ok (encode x).
+  Proof.
+    intros t x Ht Hc.
+    destruct x, t; try (cbn in Hc; discriminate); try (cbn in Ht; discriminate); cbn [conf] in Hc;
+      cbn [json_of vm_val is_num_ty strict p_num encode].
+    - rewrite (num_strict_fmt_int TByte 1%nat 8 z eq_refl Hc). reflexivity.
+    - rewrite (num_strict_fmt_int TI16 2%nat 16 z eq_refl Hc). reflexivity.
+    - rewrite (num_strict_fmt_int TI32 4%nat 32 z eq_refl Hc). reflexivity.
+    - rewrite (num_strict_fmt_int TI64 8%nat 64 z eq_refl Hc). reflexivity.
+    - rewrite (dbl_strict _ Hc). reflexivity.
+    - reflexivity.
+  Qed.
+
   Lemma jbytes_Forall_byte : forall x, jbytes_okb x = true -> Forall byte x.
   Proof. intros x H. apply Forall_jbytes in H. exact H. Qed.
 
@@ -233,15 +252,21 @@ Section Denoted.
         destruct (find_id sd (fst f)) as [fd|]; [|discriminate]. cbn [fst snd].
         apply andb_true_iff in Hc. destruct Hc as [Hc Hcv].
         apply andb_true_iff in Hc. destruct Hc as [Hc Hff].
+        apply andb_true_iff in Hc. destruct Hc as [Hc Hvm].
         apply andb_true_iff in Hc. destruct Hc as [Hc _].
         apply andb_true_iff in Hc. destruct Hc as [Hc _].
         destruct (find_field sd (key1 fd)) as [fd'|]; [|discriminate].
+        apply andb_true_iff in Hff. destruct Hff as [Hff Hvm'].
         apply andb_true_iff in Hff. destruct Hff as [Hid Hty].
-        apply ty_eqb_eq in Hty. apply Z.eqb_eq in Hid. apply Z.eqb_eq in Hc.
-        rewrite Hty, Hid, Hc.
+        apply ty_eqb_eq in Hty. apply Z.eqb_eq in Hid. apply Z.eqb_eq in Hc. apply eqb_prop in Hvm'.
+        rewrite Hty, Hid, Hc, Hvm'.
         rewrite (json_of_not_null _ _ Hcv).
-        rewrite (IH f Hf (f_ty fd) (s + 1) Hcv (Hdep f Hf)). cbn [rbind].
-        rewrite (conf_type_of _ _ Hcv). reflexivity.
+        destruct (o_vm o && f_vm fd) eqn:Hov.
+        * apply andb_true_iff in Hov. destruct Hov as [_ Hfv]. rewrite Hfv in Hvm. cbn [negb orb] in Hvm.
+          rewrite (vm_val_denoted _ _ Hvm Hcv). cbn [rbind].
+          rewrite (conf_type_of _ _ Hcv). reflexivity.
+        * rewrite (IH f Hf (f_ty fd) (s + 1) Hcv (Hdep f Hf)). cbn [rbind].
+          rewrite (conf_type_of _ _ Hcv). reflexivity.
     - (* map *)
       destruct t; cbn [conf] in Hc; try discriminate. cbn [json_of].
       apply andb_true_iff in Hc. destruct Hc as [Hc Hes].
@@ -365,6 +390,7 @@ Proof.
     specialize (Hc f Hf). destruct (find_id sd (fst f)) as [fd|]; [|discriminate]. cbn [fst snd].
     apply andb_true_iff in Hc. destruct Hc as [Hc Hcv].
     apply andb_true_iff in Hc. destruct Hc as [Hc _].
+    apply andb_true_iff in Hc. destruct Hc as [Hc _].
     apply andb_true_iff in Hc. destruct Hc as [_ Hk].
     rewrite Hk. cbn [andb]. apply (IH f Hf). exact Hcv.
   - destruct t; cbn [conf] in Hc; try discriminate. cbn [json_of json_wf].
@@ -400,6 +426,9 @@ Proof.
     rewrite H; eexists; reflexivity.
 Qed.
 
+(* the JSON kinds api.js_conv looks at: a string or a number (anything else is a mismatch) *)
+Definition vm_kind_ok (j : json) : bool := match j with JStr _ | JNum _ => true | _ => false end.
+
 Section Reject.
   Variable P : policy.
   Variable D : defs.
@@ -407,14 +436,60 @@ Section Reject.
 
   (* a known, non-null member whose conversion fails makes the struct conversion fail *)
   Lemma j2t_child_error_lemma : forall i sd s ms k x f c,
-    nth_error D i = Some sd -> In (k, x) ms -> find_field sd k = Some f -> is_null x = false ->
-    j2t_val P D o (f_ty f) (s + 1) x = Err c ->
+    nth_error D i = Some sd -> In (k, x) ms -> find_field sd k = Some f -> o_vm o && f_vm f = false ->
+    is_null x = false -> j2t_val P D o (f_ty f) (s + 1) x = Err c ->
     exists c', j2t_val P D o (TStruct i) s (JObj ms) = Err c'.
   Proof.
-    intros i sd s ms k x f c Hsd Hin Hf Hn He. rewrite (j2t_val_struct_eq P D o i sd s ms Hsd).
+    intros i sd s ms k x f c Hsd Hin Hf Hvm Hn He. rewrite (j2t_val_struct_eq P D o i sd s ms Hsd).
     destruct (nonempty ms && (max_level <=? s)); [eexists; reflexivity|].
     destruct (rconcat_err (struct_member P D o sd s) ms (k, x) c Hin) as [c' Hc'].
-    - unfold struct_member. cbn [fst snd]. rewrite Hf, Hn, He. reflexivity.
+    - unfold struct_member. cbn [fst snd]. rewrite Hf, Hvm, Hn, He. reflexivity.
+    - rewrite Hc'. eexists; reflexivity.
+  Qed.
+
+  (* the same for an api.js_conv member (value mapping enabled): its conversion is vm_val *)
+  Lemma j2t_vm_child_error_lemma : forall i sd s ms k x f c,
+    nth_error D i = Some sd -> In (k, x) ms -> find_field sd k = Some f -> o_vm o && f_vm f = true ->
+    is_null x = false -> vm_val P (f_ty f) x = Err c ->
+    exists c', j2t_val P D o (TStruct i) s (JObj ms) = Err c'.
+  Proof.
+    intros i sd s ms k x f c Hsd Hin Hf Hvm Hn He. rewrite (j2t_val_struct_eq P D o i sd s ms Hsd).
+    destruct (nonempty ms && (max_level <=? s)); [eexists; reflexivity|].
+    destruct (rconcat_err (struct_member P D o sd s) ms (k, x) c Hin) as [c' Hc'].
+    - unfold struct_member. cbn [fst snd]. rewrite Hf, Hvm, Hn, He. reflexivity.
+    - rewrite Hc'. eexists; reflexivity.
+  Qed.
+
+  Lemma j2t_vm_member_mismatch_rejected_lemma : forall i sd s ms k x f,
+    nth_error D i = Some sd -> In (k, x) ms -> find_field sd k = Some f -> o_vm o && f_vm f = true ->
+    is_null x = false -> vm_kind_ok x = false ->
+    exists c, j2t_val P D o (TStruct i) s (JObj ms) = Err c.
+  Proof.
+    intros i sd s ms k x f Hsd Hin Hf Hvm Hn Hk.
+    apply (j2t_vm_child_error_lemma i sd s ms k x f E_KIND Hsd Hin Hf Hvm Hn).
+    destruct x; cbn [vm_kind_ok] in Hk; try discriminate; reflexivity.
+  Qed.
+
+  (* api.js_conv on a type it does not support (bool, containers) is an error whatever the value *)
+  Lemma j2t_vm_member_type_unsupported_lemma : forall i sd s ms k x f,
+    nth_error D i = Some sd -> In (k, x) ms -> find_field sd k = Some f -> o_vm o && f_vm f = true ->
+    is_null x = false -> vm_ty_ok (f_ty f) = false -> f_ty f <> TBinary ->
+    exists c, j2t_val P D o (TStruct i) s (JObj ms) = Err c.
+  Proof.
+    intros i sd s ms k x f Hsd Hin Hf Hvm Hn Ht Hb.
+    apply (j2t_vm_child_error_lemma i sd s ms k x f E_KIND Hsd Hin Hf Hvm Hn).
+    destruct x, (f_ty f); try reflexivity; try (cbn in Ht; discriminate); congruence.
+  Qed.
+
+  (* finding: with the code's quirk a null api.js_conv member is an error instead of being omitted *)
+  Lemma j2t_vm_null_quirk_rejected_lemma : forall i sd s ms k f,
+    nth_error D i = Some sd -> In (k, JNull) ms -> find_field sd k = Some f -> o_vm o && f_vm f = true ->
+    p_vm_quirks P = true -> exists c, j2t_val P D o (TStruct i) s (JObj ms) = Err c.
+  Proof.
+    intros i sd s ms k f Hsd Hin Hf Hvm Hq. rewrite (j2t_val_struct_eq P D o i sd s ms Hsd).
+    destruct (nonempty ms && (max_level <=? s)); [eexists; reflexivity|].
+    destruct (rconcat_err (struct_member P D o sd s) ms (k, JNull) E_KIND Hin) as [c' Hc'].
+    - unfold struct_member. cbn [fst snd is_null]. rewrite Hf, Hvm, Hq. reflexivity.
     - rewrite Hc'. eexists; reflexivity.
   Qed.
 
@@ -462,12 +537,12 @@ Section Reject.
   Qed.
 
   Lemma j2t_member_mismatch_rejected_lemma : forall i sd s ms k x f,
-    nth_error D i = Some sd -> In (k, x) ms -> find_field sd k = Some f -> is_null x = false ->
-    kind_ok o (f_ty f) x = false -> exists c, j2t_val P D o (TStruct i) s (JObj ms) = Err c.
+    nth_error D i = Some sd -> In (k, x) ms -> find_field sd k = Some f -> o_vm o && f_vm f = false ->
+    is_null x = false -> kind_ok o (f_ty f) x = false -> exists c, j2t_val P D o (TStruct i) s (JObj ms) = Err c.
   Proof.
-    intros i sd s ms k x f Hsd Hin Hf Hn Hk.
+    intros i sd s ms k x f Hsd Hin Hf Hvm Hn Hk.
     destruct (j2t_rejects_kind_mismatch_lemma P D o (f_ty f) (s + 1) x Hk) as [c Hc].
-    exact (j2t_child_error_lemma i sd s ms k x f c Hsd Hin Hf Hn Hc).
+    exact (j2t_child_error_lemma i sd s ms k x f c Hsd Hin Hf Hvm Hn Hc).
   Qed.
 
   Lemma j2t_list_elem_mismatch_rejected_lemma : forall e s xs x, In x xs -> is_null x = false ->
@@ -493,14 +568,16 @@ Section Reject.
 
   (* composition: a mismatch two levels down (struct member inside a struct member) is still an error *)
   Lemma j2t_member_mismatch_rejected_nested_lemma : forall i sd s ms k f i' sd' ms' k' x' f',
-    nth_error D i = Some sd -> In (k, JObj ms') ms -> find_field sd k = Some f -> f_ty f = TStruct i' ->
-    nth_error D i' = Some sd' -> In (k', x') ms' -> find_field sd' k' = Some f' -> is_null x' = false ->
+    nth_error D i = Some sd -> In (k, JObj ms') ms -> find_field sd k = Some f -> o_vm o && f_vm f = false ->
+    f_ty f = TStruct i' ->
+    nth_error D i' = Some sd' -> In (k', x') ms' -> find_field sd' k' = Some f' -> o_vm o && f_vm f' = false ->
+    is_null x' = false ->
     kind_ok o (f_ty f') x' = false -> exists c, j2t_val P D o (TStruct i) s (JObj ms) = Err c.
   Proof.
-    intros i sd s ms k f i' sd' ms' k' x' f' Hsd Hin Hf Hty Hsd' Hin' Hf' Hn' Hk'.
-    destruct (j2t_member_mismatch_rejected_lemma i' sd' (s + 1) ms' k' x' f' Hsd' Hin' Hf' Hn' Hk') as [c Hc].
+    intros i sd s ms k f i' sd' ms' k' x' f' Hsd Hin Hf Hvm Hty Hsd' Hin' Hf' Hvm' Hn' Hk'.
+    destruct (j2t_member_mismatch_rejected_lemma i' sd' (s + 1) ms' k' x' f' Hsd' Hin' Hf' Hvm' Hn' Hk') as [c Hc].
     rewrite <- Hty in Hc.
-    exact (j2t_child_error_lemma i sd s ms k (JObj ms') f c Hsd Hin Hf eq_refl Hc).
+    exact (j2t_child_error_lemma i sd s ms k (JObj ms') f c Hsd Hin Hf Hvm eq_refl Hc).
   Qed.
 
   (* ---------------------------------------------------------------- (5) unknown members under DisallowUnknownField *)
@@ -516,15 +593,30 @@ Section Reject.
   Qed.
 
   (* ---------------------------------------------------------------- (4) nulls and unknown members contribute nothing *)
-  Lemma j2t_null_omitted_lemma : forall i sd s ms1 ms2 k,
-    nth_error D i = Some sd -> (find_field sd k <> None \/ o_disallow_unknown o = false) -> s < max_level ->
+  Lemma j2t_null_omitted_gen : forall i sd s ms1 ms2 k,
+    nth_error D i = Some sd -> (find_field sd k <> None \/ o_disallow_unknown o = false) ->
+    (p_vm_quirks P = false \/ o_vm o = false) -> s < max_level ->
     j2t_val P D o (TStruct i) s (JObj (ms1 ++ (k, JNull) :: ms2)) = j2t_val P D o (TStruct i) s (JObj (ms1 ++ ms2)).
   Proof.
-    intros i sd s ms1 ms2 k Hsd Hk Hs. rewrite !(j2t_val_struct_eq P D o i sd s _ Hsd).
+    intros i sd s ms1 ms2 k Hsd Hk Hq Hs. rewrite !(j2t_val_struct_eq P D o i sd s _ Hsd).
     rewrite !depth_test_false by exact Hs. rewrite rconcat_skip; [reflexivity|].
     unfold struct_member. cbn [fst snd is_null].
-    destruct (find_field sd k) as [f|]; [reflexivity|]. destruct Hk as [Hk|Hk]; [congruence|]. rewrite Hk. reflexivity.
+    destruct (find_field sd k) as [f|].
+    - destruct Hq as [Hq|Hq]; rewrite Hq; [|reflexivity]. destruct (o_vm o && f_vm f); reflexivity.
+    - destruct Hk as [Hk|Hk]; [congruence|]. rewrite Hk. reflexivity.
   Qed.
+
+  Lemma j2t_null_omitted_lemma : forall i sd s ms1 ms2 k,
+    nth_error D i = Some sd -> (find_field sd k <> None \/ o_disallow_unknown o = false) ->
+    p_vm_quirks P = false -> s < max_level ->
+    j2t_val P D o (TStruct i) s (JObj (ms1 ++ (k, JNull) :: ms2)) = j2t_val P D o (TStruct i) s (JObj (ms1 ++ ms2)).
+  Proof. intros i sd s ms1 ms2 k Hsd Hk Hq Hs. apply (j2t_null_omitted_gen i sd); auto. Qed.
+
+  Lemma j2t_null_omitted_novm_lemma : forall i sd s ms1 ms2 k,
+    nth_error D i = Some sd -> (find_field sd k <> None \/ o_disallow_unknown o = false) ->
+    o_vm o = false -> s < max_level ->
+    j2t_val P D o (TStruct i) s (JObj (ms1 ++ (k, JNull) :: ms2)) = j2t_val P D o (TStruct i) s (JObj (ms1 ++ ms2)).
+  Proof. intros i sd s ms1 ms2 k Hsd Hk Hq Hs. apply (j2t_null_omitted_gen i sd); auto. Qed.
 
   Lemma j2t_unknown_skipped_lemma : forall i sd s ms1 ms2 k x,
     nth_error D i = Some sd -> find_field sd k = None -> o_disallow_unknown o = false -> s < max_level ->
